@@ -1,2 +1,99 @@
-import NmfuModel.Equiv
-def main : IO Unit := IO.println "nmfumodel"
+import NmfuModel.Parse
+import NmfuModel.Explore
+open Nmfu
+
+def splitBar (s : String) : List String := Id.run do
+  let mut acc : Array String := #[]
+  let mut cur : String := ""
+  for c in s.toList do
+    if c = '|' then
+      acc := acc.push cur
+      cur := ""
+    else cur := cur.push c
+  acc := acc.push cur
+  return acc.toList
+
+def symStr (w : List Nat) : String := " ".intercalate (w.map toString)
+
+def fmtAEv : AEv → String
+  | .ret c => s!"ret:{c}"
+  | .yield c => s!"yield:{c}"
+  | .hook n a => s!"hook:{n}:{a}"
+  | .append o b => s!"append:{o}:{b}"
+  | .appendC o e => s!"appendc:{o}:{hash e}"
+  | .set o e => s!"set:{o}:{hash e}"
+  | .setStr o bs => s!"setstr:{o}:{bs}"
+  | .delete o => s!"delete:{o}"
+  | .brk => "brk"
+
+def fmtEv : MEv → String
+  | .act a => fmtAEv a
+  | .asked (.cond e) v => s!"ask:cond:{hash e}={v}"
+  | .asked (.full o) v => s!"ask:full:{o}={v}"
+
+def fmtLeaf : Leaf → String
+  | .next s => s!"next:{s}"
+  | .halt => "halt"
+
+def fmtPS (p : PS AEv Quest) : String :=
+  s!"a={p.a} b={p.b} aLeads={p.aLeads} lag=[{" ".intercalate (p.lag.map fmtEv)}]"
+
+def fmtPaths (t : MTree) : String :=
+  " ; ".intercalate (t.paths.map fun p => (" ".intercalate (p.1.map fmtEv)) ++ " => " ++ fmtLeaf p.2)
+
+def cmdEquiv (args : List String) : String :=
+  match args with
+  | [sd, sl, lim, ma, mb] =>
+    match parseMachine ma, parseMachine mb with
+    | .ok A, .ok B =>
+      let o : SemOpts := { strictDone := sd = "1", substLast := sl = "1" }
+      let smA := A.sm o
+      let smB := B.sm o
+      let r := explore smA smB nSym lim.toNat!
+      match r.mismatch with
+      | some (w, p, x) =>
+        s!"mismatch word={symStr w} sym={x} {fmtPS p} treeA={fmtPaths (smA.tree p.a x)} treeB={fmtPaths (smB.tree p.b x)}"
+      | none =>
+        if r.outOfFuel then s!"fuel visited={r.visited.size}"
+        else
+          let ok := certOK smA smB nSym r.visited.toList
+          let lagLast := r.visited.any fun p => p.lag.any fun e =>
+            match e with
+            | .act (.hook _ _) => true
+            | .act (.append _ _) => true
+            | .act (.appendC _ e) => e.readsLast
+            | .act (.set _ e) => e.readsLast
+            | .asked (.cond e) _ => e.readsLast
+            | _ => false
+          s!"closed visited={r.visited.size} maxlag={r.maxLag} cert={ok} laggedLastReader={lagLast}"
+    | .error e, _ => s!"error parseA {e}"
+    | _, .error e => s!"error parseB {e}"
+  | _ => "error bad-args"
+
+def cmdTree (args : List String) : String :=
+  match args with
+  | [sd, sl, m, st, x] =>
+    match parseMachine m with
+    | .ok A =>
+      let o : SemOpts := { strictDone := sd = "1", substLast := sl = "1" }
+      fmtPaths ((A.sm o).step st.toNat! x.toNat!)
+    | .error e => s!"error parse {e}"
+  | _ => "error bad-args"
+
+def handle (line : String) : String :=
+  match splitBar line with
+  | "equiv" :: args => cmdEquiv args
+  | "tree" :: args => cmdTree args
+  | "ping" :: _ => "pong"
+  | _ => "error unknown-command"
+
+partial def loop (h : IO.FS.Stream) (out : IO.FS.Stream) : IO Unit := do
+  let line ← h.getLine
+  if line.isEmpty then return ()
+  let l := String.ofList (line.toList.filter (fun c => c != '\n' && c != '\r'))
+  out.putStrLn (handle l)
+  out.flush
+  loop h out
+
+def main : IO Unit := do
+  loop (← IO.getStdin) (← IO.getStdout)
